@@ -237,19 +237,35 @@ def visible_ev(prim, args):
     return int((e * 1000000).to_integral_value())
 
 
+def transition_shells(prim, args):
+    """internal-conversion outcomes of a transition primitive whose arguments are literals:
+    <<transition energy, threshold (shell binding energy, or 2 m_e for the pair), 1 if the outcome has a non-zero coefficient>>,
+    energies in units of 0.01 eV"""
+    n = {'nucltransK': 1, 'nucltransKL': 2, 'nucltransKLM': 3, 'nucltransKLM_Pb': 3}.get(prim)
+    if n is None or len(args) < 2 * n + 2 or any(a == '?' for a in args[:2 * n + 2]):
+        return ''
+    def u(x):
+        return int((Decimal(x) * Decimal(10) ** 8).to_integral_value())
+    e = u(args[0])
+    out = ['<<%d, %d, %d>>' % (e, u(args[1 + 2 * i]), 1 if Decimal(args[2 + 2 * i]) > 0 else 0) for i in range(n)]
+    out.append('<<%d, %d, %d>>' % (e, 102199812, 1 if Decimal(args[1 + 2 * n]) > 0 else 0))
+    return ', '.join(out)
+
+
 def scheme_to_tla(key, sch):
     es = []
     for e in sch['edges']:
         items = []
         for it in e['items']:
             if it[0] == 'draw':
-                items.append('[k |-> "draw", s |-> %s, p |-> "", a |-> <<>>, ev |-> 0]' % tla_str(it[1]))
+                items.append('[k |-> "draw", s |-> %s, p |-> "", a |-> <<>>, ev |-> 0, tr |-> <<>>]' % tla_str(it[1]))
             elif it[0] == 'loop':
                 # p = number of deviates per trial of the opaque rejection loop (5 in the angular-correlation blocks)
-                items.append('[k |-> "loop", s |-> "", p |-> "%s", a |-> <<>>, ev |-> 0]' % ('2' if it[1] == 2 else '5'))
+                items.append('[k |-> "loop", s |-> "", p |-> "%s", a |-> <<>>, ev |-> 0, tr |-> <<>>]' % ('2' if it[1] == 2 else '5'))
             else:
-                items.append('[k |-> "call", s |-> "", p |-> %s, a |-> <<%s>>, ev |-> %d]' % (
-                    tla_str(it[1]), ', '.join(tla_str(canon_lit(a)) for a in it[2]), visible_ev(it[1], it[2])))
+                items.append('[k |-> "call", s |-> "", p |-> %s, a |-> <<%s>>, ev |-> %d, tr |-> <<%s>>]' % (
+                    tla_str(it[1]), ', '.join(tla_str(canon_lit(a)) for a in it[2]), visible_ev(it[1], it[2]),
+                    transition_shells(it[1], it[2])))
         if e['site'] is None:
             lo, hi, site = (0, 0), (1000000, 0), ''
         else:
@@ -340,7 +356,8 @@ def main():
         f.write('(* GENERATED by tools/gen_spec_data.py from the Decay0 2020-04-20 reference text - do not edit. *)\n')
         f.write('(* Scheme graphs: edge = [s, d, site, lo, hi, items]; d = -1 is Return; lo/hi are <<a,b>> = a*1e-6 + b*1e-12; *)\n')
         f.write('(* item = [k in {"draw","call","loop"}, s = draw site, p = primitive, a = literal arguments ("?" = not a literal), *)\n')
-        f.write('(*         ev = visible energy released by the call in eV (-1: not fixed)].                                        *)\n')
+        f.write('(*         ev = visible energy released by the call in eV (-1: not fixed),                                         *)\n')
+        f.write('(*         tr = for a transition primitive <<E, threshold, 1 if possible>> per conversion shell + pair (0.01 eV)]. *)\n')
         f.write('EXTENDS Integers, Sequences, TLC\n\n')
         f.write('SchEdges ==\n  ')
         f.write('\n  @@ '.join(scheme_to_tla(k, s) for k, s in sorted(schemes.items())))
